@@ -12,13 +12,12 @@ PROPS["C05"] = {
     "claim": "Two REAL engines (initiator + acceptor, memory or file stores) are driven through generated fault histories (sends on both sides also while disconnected, "
              "deliveries, cuts losing everything in flight, reconnects, restarts on the file store, heartbeats) and compared event by event with the Lean two-engine model; "
              "the prefix monitor (delivered is a prefix of submitted, both directions) is evaluated after every operation and equality after settling. "
-             "Theorems: `C05_safety` — for ALL configurations (persistence on, resets off, mirrored CompIDs, same BeginString; everything else free) and ALL fault histories "
+             "Theorems: `C05_safety` — for ALL configurations (persistence on, resets off, EnableNextExpectedMsgSeqNum off, mirrored CompIDs, same BeginString; everything else free) and ALL fault histories "
              "with non-empty payload ids and sequence numbers within Go's int, delivered is a prefix of submitted in both directions (in order, exactly once, nothing unsent); "
              "`C05_invariant` (delivered = payloads of the peer's stored application messages below the expected number); meaning of the prefix clause and of the monitor's silence "
              "(`C05_monitor_silent_iff_safe`, `C05_monitor_settled_silent_iff`), faithfulness of the links, "
              "number round trip, per-engine delivery (C01). The statement without side conditions (`def C05_safety_full`) is FALSE of the model: an empty payload value is "
-             "refused as malformed by the peer and consumed (#guard counterexample + theorem `C05_empty_payload_is_consumed`); the generator never produces one. "
-             "Liveness: `C05_liveness_reconnect` — after EVERY fault history (ResendRequestChunkSize 0, roles fixed, ApplVerID under FIXT, head-room for the numbers) the schedule "
+             "refused as malformed by the peer and consumed (#guard counterexample + theorem `C05_empty_payload_is_consumed`); the generator never produces one. With EnableNextExpectedMsgSeqNum on, `C05_safety` says nothing (hypotheses hnxa hnxb; the link generator never sets the option; observation in Props/C05.lean: the first logon attempt of two fresh engines with the option fails). Liveness: `C05_liveness_reconnect` — after EVERY fault history (ResendRequestChunkSize 0, roles fixed, ApplVerID under FIXT, head-room for the numbers) the schedule "
              "cut, connect, both Logons, one flush per side, deliveries ends with delivered = submitted in both directions, nothing in flight, both engines InSession "
              "(all gap cases); `C05_liveness_nogap` (no gap: delivering what is in flight suffices). The chunked case is NOT proved (`def C05_liveness_full`); it is sampled. "
              "Deliveries + heartbeats alone can leave a link stuck (needs the peer/logon/logout timeouts or a reconnect): #guard + corpus/C05/stuck-without-timeouts.ops, same on the real engines. "
